@@ -39,9 +39,9 @@ theorem backfill_bytes_noShare {w w' : World} {caps : Nat → Nat} {X b : Nat} {
 bytes of all its slices — unconditionally for every op but `backfill`, and for a `backfill` through
 another iovec `X` when no slice of `j` covers a pending range of `X` (`FillFree`). -/
 theorem frame_other {w w' : World} {caps : Nat → Nat} {op : WOp} (hg : GReach w caps) (h : w.step op = some w')
-    {j : Nat} {v : Iov} (hv : w.iov j = some v) (hj : op.iovTarget ≠ some j) (hi : IovInv w v)
+    {j : Nat} {v : Iov} (hv : w.iov j = some v) (hj : op.iovTarget ≠ some j) (hi : W.IovInv w v)
     (hff : FillFree w op j) :
-    w'.iov j = some v ∧ IovInv w' v ∧ ∀ s ∈ v.slices, w'.sliceBytes s = w.sliceBytes s := by
+    w'.iov j = some v ∧ W.IovInv w' v ∧ ∀ s ∈ v.slices, w'.sliceBytes s = w.sliceBytes s := by
   refine ⟨step_frame_iov h hv hj, hi.of_world (exts_mono_of_append (step_exts h)) (step_astep h).next_le, ?_⟩
   intro s hs
   by_cases hb : ∃ X b bs, op = .backfill X b bs
@@ -50,6 +50,12 @@ theorem frame_other {w w' : World} {caps : Nat → Nat} {op : WOp} (hg : GReach 
     exact backfill_bytes_noShare hg hv (hff X b bs rfl hXj) h hs
   · exact step_bytes_unchanged hg h (fun i b bs e => hb ⟨i, b, bs, e⟩) (Or.inl ⟨j, v, hv, hs⟩)
       ((hg.reachable.inv.iovOk j v hv).extOk s hs)
+
+/-- … the structural part needs no side condition. -/
+theorem frame_other_inv {w w' : World} {op : WOp} (h : w.step op = some w')
+    {j : Nat} {v : Iov} (hv : w.iov j = some v) (hj : op.iovTarget ≠ some j) (hi : W.IovInv w v) :
+    w'.iov j = some v ∧ W.IovInv w' v :=
+  ⟨step_frame_iov h hv hj, hi.of_world (exts_mono_of_append (step_exts h)) (step_astep h).next_le⟩
 
 theorem absCells_congr {w w' : World} {v : Iov} (h : ∀ s ∈ v.slices, w'.sliceBytes s = w.sliceBytes s) :
     absCells w' v = absCells w v := by
